@@ -4,6 +4,7 @@ package main
 import (
 	"fmt"
 	"math/big"
+	"regexp"
 	"strings"
 
 	"golang.org/x/tools/go/ssa"
@@ -12,18 +13,18 @@ import (
 // submitFinal sends a self-contained query (path condition + extra) to the pool of fresh solver processes.
 func (e *Exec) submitFinal(s *State, kind, label string, pc []string, extra []string) *FinalQuery {
 	q := &FinalQuery{Harness: e.harness, Kind: kind, Label: label, PathID: s.ID, Choices: append([]int{}, s.Choices...)}
+	e.submitQuery(q, pc, extra)
+	return q
+}
+
+func (e *Exec) submitQuery(q *FinalQuery, pc []string, extra []string) {
 	var evals []string
 	e.mu.Lock()
 	inputs := e.inputs
 	e.mu.Unlock()
-	if kind != "overflow" {
-		// only the inputs this path's formula mentions (inputs created on sibling paths are unconstrained here)
+	if q.Kind != "batch" {
 		body := strings.Join(pc, " ") + " " + strings.Join(extra, " ")
-		for _, in := range inputs {
-			if containsSym(body, in) {
-				evals = append(evals, in)
-			}
-		}
+		evals = evalSymbols(body, inputs)
 	}
 	q.Inputs = evals
 	text := e.sol.buildQuery(pc, extra, evals)
@@ -31,7 +32,6 @@ func (e *Exec) submitFinal(s *State, kind, label string, pc []string, extra []st
 	e.pending = append(e.pending, q)
 	e.mu.Unlock()
 	e.pool.submit(q, text)
-	return q
 }
 
 func (e *Exec) newInput(prefix, tag string, boolean bool) string {
@@ -111,8 +111,9 @@ func init() {
 			e.stats["assert-trivial:"+lbl]++
 			return nil, false
 		}
-		e.submitFinal(s, "assert", lbl, append([]string{}, s.PC...), []string{tNot(c)})
-		// assertions are discharged independently: the path continues WITHOUT assuming c
+		// assertions are discharged independently of each other (the path continues WITHOUT assuming c); all assertions of
+		// a path are put to the solver together when the path ends (flushAsserts) and individually only if that fails
+		s.Asserts = append(s.Asserts, pendingAssert{lbl, c})
 		return nil, false
 	})
 	reg(vp+"AssertAndAssume", func(e *Exec, s *State, f *Frame, x *ssa.Call, a []Val) ([]*State, bool) {
@@ -172,6 +173,8 @@ func init() {
 			e.overflowAsObligation = true
 		case "no-merge":
 			e.noMerge = true
+		case "no-region-merge":
+			e.noRegion = true
 		case "havoc-arith":
 			e.havocArith = true
 		default:
@@ -179,6 +182,12 @@ func init() {
 		}
 		e.mu.Lock()
 		e.optionsUsed[a[0].(StrV).S] = true
+		e.mu.Unlock()
+		return nil, false
+	})
+	reg(vp+"Stub", func(e *Exec, s *State, f *Frame, x *ssa.Call, a []Val) ([]*State, bool) {
+		e.mu.Lock()
+		e.stubs[a[0].(StrV).S] = true
 		e.mu.Unlock()
 		return nil, false
 	})
@@ -196,6 +205,35 @@ func init() {
 	})
 	reg(vp+"IsErrNil", func(e *Exec, s *State, f *Frame, x *ssa.Call, a []Val) ([]*State, bool) {
 		return ret(f, x, boolc(a[0].(IfaceV).T == nil))
+	})
+	boolN := func(op func(...string) string) intrinsic {
+		return func(e *Exec, s *State, f *Frame, x *ssa.Call, a []Val) ([]*State, bool) {
+			var ts []string
+			if sl, ok := a[0].(SliceV); ok && sl.ID != 0 {
+				for _, el := range e.sliceElems(s, sl) {
+					ts = append(ts, el.(Sym).S)
+				}
+			}
+			return ret(f, x, Sym{Bool: true, S: op(ts...)})
+		}
+	}
+	reg(vp+"And", boolN(tAnd))
+	reg(vp+"Or", boolN(tOr))
+	reg(vp+"Implies", func(e *Exec, s *State, f *Frame, x *ssa.Call, a []Val) ([]*State, bool) {
+		return ret(f, x, Sym{Bool: true, S: tOr(tNot(a[0].(Sym).S), a[1].(Sym).S)})
+	})
+	reg(vp+"IteZ", func(e *Exec, s *State, f *Frame, x *ssa.Call, a []Val) ([]*State, bool) {
+		zt := func(v Val) string {
+			b := v.(BigV)
+			if b.Nil {
+				return "0"
+			}
+			return b.T
+		}
+		return ret(f, x, BigV{T: tIte(a[0].(Sym).S, zt(a[1]), zt(a[2]))})
+	})
+	reg(vp+"IteU", func(e *Exec, s *State, f *Frame, x *ssa.Call, a []Val) ([]*State, bool) {
+		return ret(f, x, Sym{S: tIte(a[0].(Sym).S, a[1].(Sym).S, a[2].(Sym).S)})
 	})
 	// Z: mathematical integers for specifications
 	zm := "(" + comdexPath + "/zzvp.Z)."
@@ -243,8 +281,10 @@ func init() {
 		switch v := a[0].(type) {
 		case BigV:
 			if v.Nil {
-				e.runtimePanic(s, "nil math.Int/LegacyDec in specification")
-				return nil, false
+				return ret(f, x, BigV{T: "0"}) // the zero value of an absent record counts as 0 in specifications
+			}
+			if v.NilIf != "" {
+				return ret(f, x, BigV{T: tIte(v.NilIf, "0", v.T)})
 			}
 			return ret(f, x, BigV{T: v.T})
 		case Sym:
@@ -286,4 +326,67 @@ func containsSym(body, name string) bool {
 		}
 		i = k
 	}
+}
+
+// flushAsserts discharges the assertions collected on a finished path: first all of them in one query
+// (pc and not(a1 and ... and an)); if that is not unsat, each one separately so that the failing label is known.
+// Every extension of the point where an assertion was stated ends in such a flush (also panicking and dropped paths),
+// so the union of the final path conditions covers the path condition at the assertion.
+func (e *Exec) flushAsserts(s *State) {
+	if len(s.Asserts) == 0 {
+		return
+	}
+	as := s.Asserts
+	s.Asserts = nil
+	if len(as) == 1 {
+		e.submitFinal(s, "assert", as[0].Label, append([]string{}, s.PC...), []string{tNot(as[0].Cond)})
+		return
+	}
+	var conds []string
+	for _, a := range as {
+		conds = append(conds, a.Cond)
+	}
+	q := &FinalQuery{Harness: e.harness, Kind: "batch", Batch: as, BatchPC: append([]string{}, s.PC...), Choices: append([]int{}, s.Choices...)}
+	q.expand = func(a pendingAssert) (*FinalQuery, string) {
+		iq := &FinalQuery{Harness: q.Harness, Kind: "assert", Label: a.Label, Choices: q.Choices}
+		extra := []string{tNot(a.Cond)}
+		e.mu.Lock()
+		inputs := e.inputs
+		e.pending = append(e.pending, iq)
+		e.mu.Unlock()
+		body := strings.Join(q.BatchPC, " ") + " " + extra[0]
+		evals := evalSymbols(body, inputs)
+		iq.Inputs = evals
+		return iq, e.sol.buildQuery(q.BatchPC, extra, evals)
+	}
+	e.submitQuery(q, q.BatchPC, []string{tNot(tAnd(conds...))})
+}
+
+var symRe = regexp.MustCompile(`[A-Za-z][A-Za-z0-9_]*_[0-9]+`)
+
+// evalSymbols: the terms to read back from a model: the harness inputs this formula mentions, then the pre-state
+// symbols it mentions (record fields, presence flags, clock), capped.
+func evalSymbols(body string, inputs []string) []string {
+	var out []string
+	seen := map[string]bool{}
+	for _, in := range inputs {
+		if containsSym(body, in) {
+			out = append(out, in)
+			seen[in] = true
+		}
+	}
+	for _, m := range symRe.FindAllString(body, -1) {
+		if seen[m] {
+			continue
+		}
+		seen[m] = true
+		switch {
+		case strings.HasPrefix(m, "rec_"), strings.HasPrefix(m, "present_"), strings.HasPrefix(m, "str_"), strings.HasPrefix(m, "time_"),
+			strings.HasPrefix(m, "len_"), strings.HasPrefix(m, "now_"), strings.HasPrefix(m, "height_"), strings.HasPrefix(m, "stub_"):
+			if len(out) < 300 {
+				out = append(out, m)
+			}
+		}
+	}
+	return out
 }
